@@ -298,7 +298,50 @@ func (p *c14) Run(w *lib.Worker, idx int, r *lib.Rand) lib.Case {
 		call = func() any { return validate.Pattern("p", "body", s, pat) }
 	case "UniqueItems":
 		var data any
-		switch r.Intn(8) {
+		// long slices: sizes around the powers of two where an implementation may switch algorithm; elements in
+		// no particular order; a duplicate, when there is one, sits anywhere (often first/last)
+		long := func() (n int, dupA, dupB int) {
+			n = []int{8, 15, 16, 17, 31, 32, 33, 64, 65, 100}[r.Intn(10)]
+			dupA, dupB = -1, -1
+			if r.P(0.5) {
+				dupA, dupB = r.Intn(n), r.Intn(n)
+				if r.P(0.4) {
+					dupA, dupB = 0, n-1
+				}
+			}
+			return
+		}
+		switch r.Intn(11) {
+		case 8:
+			n, a, b := long()
+			xs := make([]string, n)
+			for i := range xs {
+				xs[i] = fmt.Sprintf("item-%03d", (i*37+11)%n) // a permutation when n is coprime to 37, near enough otherwise
+			}
+			if a >= 0 {
+				xs[a] = xs[b]
+			}
+			data = xs
+		case 9:
+			n, a, b := long()
+			xs := make([]int, n)
+			for i := range xs {
+				xs[i] = (i*53 + 7) % (2 * n)
+			}
+			if a >= 0 {
+				xs[a] = xs[b]
+			}
+			data = xs
+		case 10:
+			n, a, b := long()
+			xs := make([]interface{}, n)
+			for i := range xs {
+				xs[i] = float64((i*29+3)%(2*n)) + 0.5
+			}
+			if a >= 0 {
+				xs[a] = xs[b]
+			}
+			data = xs
 		case 0:
 			data = []string{c14Strings[r.Intn(8)], c14Strings[r.Intn(8)], c14Strings[r.Intn(8)]}
 		case 1:
